@@ -18,7 +18,25 @@ Scale classes: a case may carry `scale` = {"pow2": k} (scene * 2**k, exact) or {
 rounded once per pixel); the driver always receives the exact rational value of every float64 pixel that pewlib
 receives, whatever the scale.
 
-Long axes: a pair whose model evaluation would cost more than LONG_COST products (transform length far above 1024)
+Histories (`kind: hist`): 2-3 steps on ONE pair of array objects (frame buffers) that are refreshed IN PLACE between the
+calls (windows moved over a feature on an empty background: both sums stay the same while the true translation
+changes; the pixels under a window shuffled / flipped / rolled: that buffer's sum stays the same; ordinary edits; the
+very same contents again; sometimes a buffer is replaced by a new array object after the old one was released), 1-2
+calls per step in the orders ab / ba / aa / bb.  Every call is compared with the specification and the mechanism
+model OF THE CONTENTS AT THE TIME OF THAT CALL (the Lean model is a function of the two images: an implementation that
+keeps anything from an earlier call differs from it).
+
+Presentations (`pres`): the same pixel values handed to pewlib in another dtype (float32 / float16 / big-endian /
+long double / signed and unsigned integers of 1-8 bytes / bool) and memory layout (Fortran order, every second element
+of a larger buffer, negative strides, read-only).  A dtype is used only if it holds every value exactly (else float64);
+images whose transform numpy computes in single precision must keep their non-zero magnitudes inside [2^-30, 2^30]
+and are compared only when the maximum leads by 1e-4 of the product of the 1-norms.
+
+Merging at the estimate: `c12.merge` merges the two images themselves (`placed`), the second at the estimate the
+mechanism model returned, against `mergeSpec` of the scene with the windows at the true translation (theorem
+merge_at_estimate and its corollaries); the implementation merges at its own estimate.
+
+Long and medium axes: a pair whose model evaluation would cost more than LONG_COST products
 goes through `c12.registerLong`: the exact correlation over the WHOLE lag box comes from the integer array twin of
 PewModel/RegisterFast.lean, which is PROVED equal to the model (PewTheorems.C12: fastLin_eq_xcorr, fastCirc_eq_xcorrCirc,
 peakOfTable_fast_eq_peak, registerOf_fast_eq_register; every dimension, shape, data list, lag).  As a cheap sanity check of
@@ -167,6 +185,14 @@ def present(content, pres):
     return x, pres
 
 
+def twin_cost(sa, sb):
+    """integer products of the array twin over the whole lag box"""
+    return int(np.prod([x + y - 1 for x, y in zip(sa, sb)], dtype=object)) * int(np.prod(sb, dtype=object))
+
+
+SELF_COST = 1_500_000  # a self-registration part above this many twin products is left out (one image with a very long axis)
+
+
 def model_cost(sa, sb):
     s = int(np.prod([x + y - 1 for x, y in zip(sa, sb)], dtype=object))
     return s * s + s * int(np.prod(sb, dtype=object))
@@ -236,11 +262,19 @@ class C12(Prop):
             "(integer textures * 2^k, k in -40 -30 +30 +60, exact; real texture * 1e-9 / 1e9), half of those equally shaped "
             "and displaced; long axes (transform length a+b-1 in 1100..1900 or 2100..2700, 1-D, or 2-D with a short second "
             "axis; both signs; equal and very unequal sizes): 10 fixed pairs on every run plus ~0.4 % (quick) / 0.8 % + 24 "
-            "(thorough) of the generated pairs; a seventh of the pairs with the scene set to zero outside the overlap of the two windows (the scene "
-            "hypothesis of theorem register_truth then holds); non-trivial = the exact cross-correlation "
+            "(thorough) of the generated pairs; medium sizes (transform lengths 30..1000 1-D, 12..40 2-D, 8..12 3-D; 8 fixed pairs "
+            "plus ~4 %); a seventh of the pairs with the scene set to zero outside the overlap of the two windows (the scene "
+            "hypotheses of theorems register_truth and register_zero_background then hold); textures also all <= 0, 0/1 masks, "
+            "a single non-zero pixel; scales 2^-150 .. 2^150 and 1e-12 .. 1e9; a third of the pairs handed over in another dtype "
+            "(f4 f2 >f8 longdouble i1..i8 u1 u2 >i4 bool, only if exact) and memory layout (F order, strided view, negative "
+            "strides, read-only); ~16 % histories: 2-3 steps of 1-2 calls on one pair of array objects refreshed in place "
+            "between the calls (windows moved over a feature on an empty background, pixels permuted, ordinary edits, unchanged "
+            "contents, buffers replaced; orders ab/ba/aa/bb), 11 fixed ones on every run, each call judged on the contents at "
+            "the time of the call; non-trivial = the exact cross-correlation "
             "has a maximum >= 5 % above every other lag, so that the pair is compared (whether or not the maximum is at the "
             "true translation: that is a feature); "
-            "anchors: every shape pair <= 12 x 12 with the five anchors on every run, plus random larger shapes; "
+            "anchors: every shape pair <= 12 x 12 with the five anchors on every run, plus random larger shapes and extents "
+            "beyond 2^31 / 2^32 (zero-stride arrays); "
             "distinct by canonical case hash")
     trusted = ["np.fft.rfftn/irfftn(s=...) compute the circular cross-correlation of the zero padded arrays "
                "(correlation theorem) with an error far below the 5 % margin demanded of compared cases",
@@ -262,7 +296,13 @@ class C12(Prop):
                    "never a violation; a well-separated maximum that is not at the true translation is compared all the same "
                    "(estimate = lag of the maximum), only the merge clause is masked there",
                    "a scaled scene with a non-zero pixel magnitude outside [2^-200, 2^200] (products could under/overflow in "
-                   "float64) is not compared (undetermined)"]
+                   "float64) is not compared (undetermined)",
+                   "an image is handed over in a dtype other than float64 only if that dtype holds every pixel exactly; float32 / "
+                   "float16 images (numpy transforms them in single precision) only with non-zero magnitudes inside [2^-30, 2^30], not on "
+                   "the array twin route, and a part with such an image is compared only if the maximum leads by >= 1e-4 of the product "
+                   "of the 1-norms (single precision round-off of the transform stays far below that)",
+                   "a self-registration part whose exact evaluation would need more than 1.5e6 integer products (an image with "
+                   "an axis above ~870) is left out; the pair itself (ab, ba) is always evaluated"]
 
     # ------------------------------------------------------------------ generation
     def gen_scene(self, rng, shape, kind):
@@ -367,7 +407,7 @@ class C12(Prop):
         if d == 1:
             S = rng.randint(1100, 1900) if rng.random() < 0.55 else rng.randint(2100, 2700)
         else:
-            S = rng.randint(1100, 1500) if rng.random() < 0.7 else rng.randint(2100, 2300)
+            S = rng.randint(1100, 1300) if rng.random() < 0.85 else rng.randint(2100, 2200)
         rel = rng.choice(["overlap", "overlap", "equal", "sub", "super", "far"])
         if rel in ("overlap", "equal"):
             a = (S + 1) // 2 + (0 if rel == "equal" else rng.randint(-S // 6, S // 6))
@@ -383,7 +423,7 @@ class C12(Prop):
             l = rng.choice([-1, 1]) * rng.randint(1, (a - 1) // 2)
         sa, sb, t = [a], [b], [l]
         if d == 2:
-            x, y, m = self.axis(rng, rel, rng.randint(1, 3), rng.randint(1, 3))
+            x, y, m = self.axis(rng, rel, rng.randint(1, 2), rng.randint(1, 2))
             pos = rng.randrange(2)
             sa.insert(pos, x)
             sb.insert(pos, y)
@@ -663,8 +703,8 @@ class C12(Prop):
                 ([40], [1500], [-1300], "signed", "super"),
                 ([1024], [1025], [-1], "signed", "overlap"),   # s = 2048 exactly
                 ([513], [513], [100], "signed", "equal"),      # s = 1025, the first length above 1024
-                ([700, 3], [700, 3], [-300, 1], "signed", "equal"),
-                ([2, 650], [3, 560], [-1, -200], "signed", "overlap")):
+                ([560, 2], [560, 2], [-300, 1], "signed", "equal"),
+                ([2, 600], [2, 500], [-1, -200], "signed", "overlap")):
             yield self.assemble(rng, sa, sb, t, kind, rel, None, {"cls": "long"})
         yield self.assemble(rng, [800], [800], [-350], "signed", "equal", {"pow2": -40}, {"cls": "long"})
         # medium sizes: transform lengths between the small pairs and 1024 (around 64, 128, 256, 512 and between), both signs
@@ -786,9 +826,9 @@ class C12(Prop):
         xb, pb = present(b, pb)
         single = any(p is not None and p.get("dtype") in SINGLE for p in (pa, pb))
         parts = [("ab", xa, xb, t), ("ba", xb, xa, [-l for l in t])]
-        if a.any():
+        if a.any() and twin_cost(a.shape, a.shape) <= SELF_COST:
             parts.append(("aa", xa, xa, zero))
-        if b.any():
+        if b.any() and twin_cost(b.shape, b.shape) <= SELF_COST:
             parts.append(("bb", xb, xb, zero))
         det, reps = {}, {}
         for name, x, y, want in parts:
